@@ -11,8 +11,9 @@ try:
     if not ok:
         print("patch does not apply:", out); sys.exit(3)
     res = {}
+    built = mutants.build(d)
     for p in props:
-        bad, note = mutants.evaluate(p, d)
+        bad, note = mutants.evaluate(p, d, built=built)
         res[p] = sorted(bad) if bad is not None else "DOES NOT COMPILE: " + note
     fired = {p: r for p, r in res.items() if r}
     print(json.dumps(fired))
